@@ -137,4 +137,10 @@ def pipelineCap (procs exporters : List Bool) : Bool := fanCap exporters || proc
 /-- `aggregateCap(base, nexts)` for a same-signal connector -/
 def aggregateCap (base : Bool) (nexts : List Bool) : Bool := base || nexts.any id
 
+/-- capability advertised by an exporter built with the exporter helper
+(`exporter/exporterhelper/internal/base_exporter.go`): the helper appends `MutatesData: true` AFTER the
+exporter's own options whenever batching is enabled (`batcherCfg.Enabled || queueCfg.Batch != nil`); among
+explicit declarations the last one wins; no declaration = non-mutating -/
+def exporterCap (declared : Option Bool) (batching : Bool) : Bool := batching || declared.getD false
+
 end OtelVerif.C06
